@@ -54,6 +54,16 @@ def main(argv):
             if tag == "FALSE-ALARM":
                 bad += 1
             print(f"{cid:8} benign {tag:11} " + (json.dumps({**fired, **errs})[:400] if tag == "FALSE-ALARM" else ""))
+    if "benign" in kinds and not pref:
+        st = {}
+        for cid, kind, text, meta in items:
+            if kind != "benign":
+                continue
+            r = res[cid]
+            fired = sorted(p for p, (s_, _d) in r.items() if s_ == "violation")
+            errs = sorted(p for p, (s_, _d) in r.items() if s_ == "error")
+            st[cid] = "silent" if not fired and not errs else (("VIOLATION " + ",".join(fired) + " ") if fired else "") + (("cannot decide (exit 2): " + ",".join(errs)) if errs else "")
+        json.dump(st, open("/verif/benign/status.json", "w"), indent=1, sort_keys=True)
     print(f"{len(items)} corpus entries, {bad} need attention")
 
 
